@@ -186,12 +186,15 @@ Definition g_get (g : group) (a b : Z) : option group :=
   else regroup (map_members (fun m => ts_get m a b) (g_entries g)) (Some (g_sup g)) true (g_hastag g).
 
 (* ------------------------------------------------------------------ *)
-(* merge_group, as it is at this commit.  Checks (all ValueError): same metadata columns unless
-   ignored; disjoint keys unless the index is reset; "same" time support unless it is reset, where
-   np.allclose broadcasts an empty support against a one-interval support (vacuously equal).
-   With the metadata kept and the index not reset, the concatenated metadata rows are handed over in
-   concatenation order while the constructor has sorted the keys: the index comparison in set_info
-   fails (ValueError) unless the concatenated keys are already increasing. *)
+(* merge_group, as repaired (commit "merge_group failed on interleaved keys ..."): the concatenated
+   metadata rows are sorted by key before they are handed to the constructor.  Checks (all
+   ValueError): same metadata columns unless ignored; disjoint keys unless the index is reset; "same"
+   time support unless it is reset, where np.allclose broadcasts an empty support against a
+   one-interval support (vacuously equal).
+   [merge_group_orig] is the function as it was at the pinned commit: with the metadata kept and the
+   index not reset, the rows were handed over in concatenation order while the constructor sorts the
+   keys, and the index comparison in set_info failed (ValueError) unless the concatenated keys were
+   already increasing. *)
 Fixpoint iset_eqb (a b : iset) : bool :=
   match a, b with
   | [], [] => true
@@ -216,7 +219,11 @@ Fixpoint disjoint_keys (seen : list Z) (gs : list group) : bool :=
 Definition renumber (es : list entry) : list entry :=
   map (fun ie => (Z.of_nat (fst ie), snd (snd ie))) (combine (seq 0 (length es)) es).
 
-Definition merge_group (gs : list group) (reset_index reset_sup ignore_meta : bool) : option group :=
+Definition merge_items (gs : list group) (reset_index : bool) : list entry :=
+  if reset_index then renumber (flat_map g_entries gs) else flat_map g_entries gs.
+
+(* [strict] = the behaviour before the repair *)
+Definition merge_group_gen (strict : bool) (gs : list group) (reset_index reset_sup ignore_meta : bool) : option group :=
   match gs with
   | [] => None
   | [g] => Some g
@@ -225,13 +232,13 @@ Definition merge_group (gs : list group) (reset_index reset_sup ignore_meta : bo
          && (reset_index || disjoint_keys (g_keys g1) rest)
          && (reset_sup || forallb (fun g => sup_same (g_sup g1) (g_sup g)) rest)
       then
-        let items := flat_map g_entries gs in
-        let items' := if reset_index then renumber items else items in
-        if negb ignore_meta && negb (incrb (map e_key items')) then None
-        else regroup items' (if reset_sup then None else Some (g_sup g1)) false
+        if strict && negb ignore_meta && negb (incrb (map e_key (merge_items gs reset_index))) then None
+        else regroup (merge_items gs reset_index) (if reset_sup then None else Some (g_sup g1)) false
                      (if ignore_meta then false else g_hastag g1)
       else None
   end.
+Definition merge_group := merge_group_gen false.
+Definition merge_group_orig := merge_group_gen true.
 
 (* ------------------------------------------------------------------ *)
 (* to_tsd / to_tsgroup.  A Tsd here: rows (time, value = key) + support *)
